@@ -218,6 +218,10 @@ func init() {
 				if og != g && og.status == gBlocked && og.waitFn != nil && og.waitTag != "quiesce" && og.waitFn() {
 					pending = true
 				}
+				// a library-side goroutine itself waiting for quiescence goes first
+				if og != g && g.isMain && og.status == gBlocked && og.waitTag == "quiesce" {
+					pending = true
+				}
 			}
 			if !pending {
 				return nil, stOK
